@@ -315,14 +315,16 @@ Definition plugged_of (online : option mval) (status : fres) : option bool :=
     else None
   end.
 
-Definition secs_of (plugged : option bool) (energy_now power_now time_to_empty : option mval) : outcome Z :=
+(* [signed_div] = true: the code before commit 90bacb2 (energy_now / power_now, signed); false = the code as it
+   is (energy_now / abs(power_now)) *)
+Definition secs_of (signed_div : bool) (plugged : option bool) (energy_now power_now time_to_empty : option mval) : outcome Z :=
   match plugged with
   | Some true => Val POWER_TIME_UNLIMITED
   | _ =>
     match energy_now, power_now with
     | Some n, Some p =>
       match n, p with
-      | MI n, MI p => Val (if p =? 0 then POWER_TIME_UNKNOWN else Z.quot (n * 3600) p)
+      | MI n, MI p => Val (if p =? 0 then POWER_TIME_UNKNOWN else Z.quot (n * 3600) (if signed_div then p else Z.abs p))
       | _, _ => Exc TypeError
       end
     | _, _ =>
@@ -335,7 +337,7 @@ Definition secs_of (plugged : option bool) (energy_now power_now time_to_empty :
     end
   end.
 
-Definition battery_of (bf : batfiles) (ac0 ac : fres) : outcome (option battery) :=
+Definition battery_of_at (signed_div : bool) (bf : batfiles) (ac0 ac : fres) : outcome (option battery) :=
   let energy_now := multi_bcat [b_energy_now bf; b_charge_now bf] in
   let power_now := multi_bcat [b_power_now bf; b_current_now bf] in
   let energy_full := multi_bcat [b_energy_full bf; b_charge_full bf] in
@@ -345,9 +347,10 @@ Definition battery_of (bf : batfiles) (ac0 ac : fres) : outcome (option battery)
   | None => Val None
   | Some percent =>
     let plugged := plugged_of (multi_bcat [ac0; ac]) (b_status bf) in
-    do secs <- secs_of plugged energy_now power_now time_to_empty;
+    do secs <- secs_of signed_div plugged energy_now power_now time_to_empty;
     Val (Some {| bt_percent := percent; bt_secsleft := secs; bt_plugged := plugged |})
   end.
+Definition battery_of := battery_of_at false.
 
 (* [listing] = os.listdir(POWER_SUPPLY_PATH): None when the directory does not exist.
    [guarded_dir] = true is the code as it is (FileNotFoundError -> None, commit 3a32a00);
